@@ -249,6 +249,8 @@ deriving Repr, DecidableEq, Inhabited
 /-- what the application observes -/
 structure View where
   env : List (Bytes × Bytes)
+  /-- `getenv(name)` (by-name lookup in `string_map`) for every name of the `getenv()` map -/
+  names : List (Bytes × Bytes)
   get : Form
   post : Form
   cookies : Cookies
@@ -336,7 +338,7 @@ def requestPlan (lim : Limits) (h : Head) : Plan :=
   let cookies := parseCookies (h.env.getSafe [72, 84, 84, 80, 95, 67, 79, 79, 75, 73, 69])
   let cl := h.contentLength
   let mkView (post : Form) (body : Bytes) : View :=
-    { env := h.env.toMap, get := formSorted get, post := formSorted post, cookies := cookies, body := body }
+    { env := h.env.toMap, names := h.env.toMap.map (fun kv => (kv.1, h.env.getSafe kv.1)), get := formSorted get, post := formSorted post, cookies := cookies, body := body }
   -- asynchronous application with content filter: main() is called before the content is read
   let pre := kind == .filter && cl != 0
   let bsArg := formGet get [98, 115]
